@@ -235,6 +235,11 @@ OPN2::OPN2() :
     m_lfoFrequency(0),
     m_chipFamily(OPNChip_OPN2)
 {
+#ifdef OPNMIDI_VERIF
+    m_verifTap = NULL;
+    m_verifTapUd = NULL;
+    m_verifChanLimit = 0;
+#endif
     m_insBankSetup.volumeModel = OPN2::VOLUME_Generic;
     m_insBankSetup.lfoEnable = false;
     m_insBankSetup.lfoFrequency = 0;
@@ -259,16 +264,28 @@ bool OPN2::setupLocked()
 
 void OPN2::writeReg(size_t chip, uint8_t port, uint8_t index, uint8_t value)
 {
+#ifdef OPNMIDI_VERIF
+    if(m_verifTap)
+        m_verifTap(m_verifTapUd, 'W', chip, port, index, value);
+#endif
     m_chips[chip]->writeReg(port, index, value);
 }
 
 void OPN2::writeRegI(size_t chip, uint8_t port, uint32_t index, uint32_t value)
 {
+#ifdef OPNMIDI_VERIF
+    if(m_verifTap)
+        m_verifTap(m_verifTapUd, 'W', chip, port, static_cast<uint8_t>(index), static_cast<uint8_t>(value));
+#endif
     m_chips[chip]->writeReg(port, static_cast<uint8_t>(index), static_cast<uint8_t>(value));
 }
 
 void OPN2::writePan(size_t chip, uint32_t index, uint32_t value)
 {
+#ifdef OPNMIDI_VERIF
+    if(m_verifTap)
+        m_verifTap(m_verifTapUd, 'P', chip, static_cast<uint16_t>(index), static_cast<uint8_t>(value), 0);
+#endif
     m_chips[chip]->writePan(static_cast<uint16_t>(index), static_cast<uint8_t>(value));
 }
 
@@ -714,6 +731,10 @@ void OPN2::reset(int emulator, unsigned long PCM_RATE, OPNFamily family, void *a
 
     m_chipFamily = family;
     m_numChannels = m_numChips * 6;
+#ifdef OPNMIDI_VERIF
+    if(m_verifChanLimit > 0 && m_verifChanLimit < m_numChannels)
+        m_numChannels = m_verifChanLimit;
+#endif
     m_insCache.resize(m_numChannels,   m_emptyInstrument.op[0]);
     m_regLFOSens.resize(m_numChannels,    0);
 
